@@ -137,6 +137,8 @@ func genPlanC01(t *rapid.T) Plan {
 				op.Burst = append(op.Burst, rapid.SampledFrom([]int{8, 40, 900, 4000, limit, limit, limit - 3000}).Draw(t, "bsize"))
 			}
 			p.Ops = append(p.Ops, op)
+		case k == 15 && rapid.Bool().Draw(t, "filler-instead"):
+			p.Ops = append(p.Ops, Op{K: "filler", C: rapid.IntRange(0, p.NClients-1).Draw(t, "fc"), Bytes: rapid.SampledFrom([]int{8000, 20000, 40000}).Draw(t, "fbytes")})
 		case k == 15:
 			p.Ops = append(p.Ops, Op{K: rapid.SampledFrom([]string{"disconnect", "close"}).Draw(t, "endkind"), C: rapid.IntRange(0, p.NClients-1).Draw(t, "ec")})
 		case k == 16:
@@ -205,7 +207,12 @@ func genPlanC07(t *rapid.T) Plan {
 	}
 	nops := rapid.IntRange(6, 24).Draw(t, "nops")
 	for i := 0; i < nops; i++ {
-		switch k := rapid.IntRange(0, 9).Draw(t, "opkind"); {
+		switch k := rapid.IntRange(0, 10).Draw(t, "opkind"); {
+		case k == 10:
+			// unrelated traffic through a subscriber's own connection: a ring's worth
+			// and more arrives after its SUBSCRIBE packets (what the subscription
+			// tree kept of them must not live in the connection's buffer)
+			p.Ops = append(p.Ops, Op{K: "filler", C: rapid.IntRange(0, 1).Draw(t, "fc"), Bytes: rapid.SampledFrom([]int{8000, 20000, 40000}).Draw(t, "fbytes")})
 		case k < 3:
 			n := rapid.SampledFrom([]int{1, 2, 3, 4, 5, 6, 8, 12}).Draw(t, "nf")
 			fs, qs := genFilters(n, rapid.IntRange(0, 2).Draw(t, "allow-invalid") == 0)
